@@ -19,6 +19,8 @@ func buildPlan(id string, pinned map[string]string, tier string) *Plan {
 		p.Trusted = []string{"pinned moduli in /verif/contracts/params.json (published curve parameters)",
 			"product abstraction: a product of two symbolic words is an opaque integer constrained only by its interval bound (sound: only weakens hypotheses)",
 			"lemma schema mulmono: a <= b && c >= 0 ==> a*c <= b*c (hypotheses discharged per instance)"}
+		p.Assumptions = []string{"Element.Div is proved equal to x * inv(y) with inv = Element.Inverse interpreted (not proved) at the ring layer: Inverse's addition chain / Pornin inversion is not under contract"}
+		p.NotCovered = []string{"Inverse, Exp, Sqrt, Legendre, BatchInvert, Vector operations, SetRandom, hashing to the field: not under contract"}
 		p.Note = "Every arithmetic entry point under contract is verified against its integer-mod-q specification for all inputs and all alias partitions of its pointer operands."
 		return p
 	case "C08":
@@ -120,9 +122,11 @@ func buildPlan(id string, pinned map[string]string, tier string) *Plan {
 			"ring layer: a method of an abstract element type is interpreted by the ring operation that its own contract states one layer below (fp.Element: C01 contracts; E2: contracts at layer 'ring fp.Element'; E6: at layer 'ring E2')",
 			"Z-lifting: a polynomial identity with integer coefficients proved over the integers holds in every commutative ring (only this direction is used)",
 			"documented defining polynomials of the towers (BETA, XI in gcv/gen_tower.go)"}
-		p.NotCovered = []string{"Inverse / BatchInvert / Div / Sqrt / Legendre / Exp of the tower types (conditional field obligations: not yet emitted)",
+		p.Assumptions = []string{"Inverse contracts state x*z == N(x)*inv(N(x)) embedded in the base ring (N = norm down one level); that N(x)*inv(N(x)) == 1 for x != 0 needs 'the base ring is a field and the norm of a non-zero element is non-zero', which is not proved here",
+			"inv() of the innermost layer is fp.Element.Inverse, interpreted (not proved) at the ring layer: its own addition chain is outside the contracts"}
+		p.NotCovered = []string{"BatchInvert / Div / Sqrt / Legendre / Exp of the tower types: not under contract",
 			"Frobenius maps, cyclotomic and compressed squarings, torus compression, Expt/ExpGLV chains: not under contract",
-			"towers of bls24-315, bls24-317, bw6-633, bw6-761 and the small-field extensions: not under contract",
+			"towers of bw6-633, bw6-761 (E3/E6 over fp) and the small-field extensions: not under contract",
 			"assembly E2 kernels on amd64 (e2_amd64.s): outside (C09)"}
 		p.Note = "Every tower operation under contract equals the product/sum computed by schoolbook convolution in R[X]/(X^k - nr) from the documented polynomials; sparse products equal the generic product applied to the operand with the documented zero/one coordinates; all alias partitions, including (where the contract says 'option interior') operands pointing into the receiver."
 		return p
